@@ -68,6 +68,35 @@ def run(prog):
         out.append(inst("HE", "%s:fields" % adt, VIOLATION if errs else OK, eqf[0], None,
                         "; ".join(errs) if errs else "eq = hash = Freeze fields %s; scratch %s ignored"
                         % (sorted(structural), sorted(scratch))))
+        # Ord (used to sort and deduplicate the elements of a decision node) must be consistent with Eq:
+        # it compares field F of self with field F of other, for exactly the structural fields
+        for cf in prog.find(name="cmp", self_adt=adt, impl_trait="std::cmp::Ord", unit="rsdd-lib"):
+            errs3, seen = [], set()
+            for cs in cf.terms.calls:
+                if cs.callee.name not in ("cmp", "partial_cmp") or len(cs.args) != 2:
+                    continue
+                fa = [x[2] for x in mir.subterms(cs.args[0]) if x[0] == "field" and x[3] == adt and x[1] == ("param", 1)]
+                fb = [x[2] for x in mir.subterms(cs.args[1]) if x[0] == "field" and x[3] == adt and x[1] == ("param", 2)]
+                if len(fa) != 1 or len(fb) != 1:
+                    fa2 = [x[2] for x in mir.subterms(cs.args[0]) if x[0] == "field" and x[3] == adt]
+                    fb2 = [x[2] for x in mir.subterms(cs.args[1]) if x[0] == "field" and x[3] == adt]
+                    if fa2 or fb2:
+                        errs3.append("line %d: comparison %s vs %s does not pair one field of self with one of other"
+                                     % (cs.line, show(cs.args[0]), show(cs.args[1])))
+                    continue
+                if fa[0] != fb[0]:
+                    errs3.append("line %d: compares self.%s with other.%s" % (cs.line, fa[0], fb[0]))
+                seen.add(fa[0])
+                seen.add(fb[0])
+            if seen != structural:
+                if structural - seen:
+                    errs3.append("cmp ignores structural field(s) %s: nodes that differ only there compare Equal "
+                                 "although eq distinguishes them (sort/dedup of elements becomes non-canonical)"
+                                 % sorted(structural - seen))
+                if seen - structural:
+                    errs3.append("cmp reads interior-mutable field(s) %s" % sorted(seen - structural))
+            out.append(inst("HE", "%s:ord-fields" % adt, VIOLATION if errs3 else OK, cf, None,
+                            "; ".join(errs3) if errs3 else "cmp pairs self.F with other.F for F in %s" % sorted(structural)))
         # IM1 companion: the scratch fields are exactly the non-Freeze ones and are private
         if adt != "repr::sdd::sdd_or::SddAnd":
             pub_scratch = [f["name"] for f in fields if not f["freeze"] and f["pub"]]
